@@ -17,6 +17,13 @@ harness_app tls_matrix real handshakes over an in-memory duplex: the application
                        rewriting the files and raising SIGUSR1 (the path check_start_tls -> register_signal_handler);
                        the reload machine carries the server's client CA, which a reload keeps (ConfigKept,
                        Authenticated; negative control "dropca")
+                       ROTATION OF CA MATERIAL IN PLACE: the machine also carries the GENERATION of the client CA bundle
+                       at the configured path (wantGen as configured, liveGen as served, dueGen as of the last reload;
+                       Rotate = the operator overwrites the bundle in place; CAFollows, JudgedAsConfigured,
+                       Authenticated; negative controls "staleca", "eagerca"); rotation scripts (duplex and real
+                       server) let clients of the retired and of the new generation connect before the rotation,
+                       between rotation and reload, and after the reload. Client side: one client process whose roots
+                       file is replaced in place (`CSCRIPT` lines, ClientFollowsRoots, negative control "staleroots")
 spec/TlsTrace.tla      TLC validates every logged line; unmatched lines come back with a signature
 
 A rejected line whose signature is an `open` entry of KNOWN_FINDINGS.json (`"property":"C17","sig":...`) is printed
@@ -31,23 +38,48 @@ TIERS = {
     # cfg: enumeration; npki: independently generated PKI sets for the matrix; script_sets: PKI sets for the scripts
     # real_procs: the real-server scripts are dealt out to that many harness processes running side by side (SIGUSR1
     # is process-wide, so within a process the servers run one after the other); each process has its own PKI set
-    "quick": dict(cfg="MC_TlsAuth_q", npki=3, script_sets=1, algs="p256,p384,ed25519", real_procs=4,
+    # script_procs: the same for the duplex and client-side scripts (each process runs its share with script_sets PKI sets)
+    "quick": dict(cfg="MC_TlsAuth_q", npki=3, script_sets=1, algs="p256,p384,ed25519", real_procs=4, script_procs=2,
                   bounds="<= 2 connections x <= 2 reloads x <= 2 uses, with and without mutual TLS",
                   real_bounds="real server (server_main + SIGUSR1): <= 2 connections, each presenting the trusted client "
-                              "certificate / none / one of another CA, x <= 2 reloads x <= 1 use, with and without mutual TLS"),
-    "thorough": dict(cfg="MC_TlsAuth", npki=8, script_sets=2, algs="p256,p384,ed25519,rsa2048", real_procs=8,
+                              "certificate / none / one of another CA, x <= 2 reloads x <= 1 use, with and without mutual TLS",
+                  rot_bounds="rotation of the client CA in place (mutual TLS), duplex and real server alike: <= 2 connections, each "
+                             "presenting no certificate or one of any generation of the CA, x 1 rotation x 1 reload x <= 1 use",
+                  fail_bounds="failed reloads (real server, without mutual TLS): 2 connections x 1 failed reload (key file unusable "
+                              "when SIGUSR1 arrives) x 1 reload x <= 1 use",
+                  cli_bounds="client side: 3 connections (server certificate issued by any generation of the roots CA or by "
+                             "another CA) x 1 replacement of the roots file in place"),
+    "thorough": dict(cfg="MC_TlsAuth", npki=8, script_sets=2, algs="p256,p384,ed25519,rsa2048", real_procs=8, script_procs=4,
                      bounds="<= 3 connections x <= 3 reloads x <= 3 uses, with and without mutual TLS",
                      real_bounds="real server (server_main + SIGUSR1): <= 3 connections, each presenting the trusted client "
-                                 "certificate / none / one of another CA, x <= 2 reloads x <= 2 uses, with and without mutual TLS"),
+                                 "certificate / none / one of another CA, x <= 2 reloads x <= 2 uses, with and without mutual TLS",
+                     rot_bounds="rotation of the client CA in place (mutual TLS): duplex <= 2 connections, each presenting no "
+                                "certificate or one of any generation of the CA, x 2 rotations x 2 reloads x <= 1 use; real server "
+                                "<= 3 connections x 1 rotation x 2 reloads x <= 1 use",
+                     fail_bounds="failed reloads (real server, with and without mutual TLS): 2 connections x 2 failed reloads (key file "
+                                 "unusable when SIGUSR1 arrives) x 2 reloads x <= 1 use",
+                     cli_bounds="client side: 4 connections (server certificate issued by any generation of the roots CA or by "
+                                "another CA) x 2 replacements of the roots file in place"),
 }
 NAMEKINDS = "localhost,dns,ip4,ip6"
 NEG_CONTROLS = {"MC_TlsAuth_neg_stale": "Fresh", "MC_TlsAuth_neg_inplace": "Undisturbed",
                 "MC_TlsAuth_neg_disconnect": "Undisturbed",
                 # a reload that forgets the client CA: seen by the real-server scripts (a client without the right
                 # certificate gets in), invisible to scripts whose client always presents the right one (state only)
-                "MC_TlsAuth_neg_dropca": "Authenticated", "MC_TlsAuth_neg_dropca_cfg": "ConfigKept"}
-OUT_RE = re.compile(r'^<<"(CASE|SCRIPT|RSCRIPT)", "(.*)">>$')
-HEADERS = {"script": "step", "rscript": "rstep"}
+                "MC_TlsAuth_neg_dropca": "Authenticated", "MC_TlsAuth_neg_dropca_cfg": "ConfigKept",
+                # a reload that keeps the client CA it read first although the bundle was replaced in place: a client of
+                # the retired CA gets in (real-server rotation scripts), the CA in force is not the one at the path at
+                # the reload (state), a client of the new CA would be refused (observable without a connection)
+                "MC_TlsAuth_neg_staleca": "Authenticated", "MC_TlsAuth_neg_staleca_cfg": "CAFollows",
+                "MC_TlsAuth_neg_staleca_obs": "JudgedAsConfigured",
+                # a rotation that is in force before any reload
+                "MC_TlsAuth_neg_eagerca": "CAFollows",
+                # a server that does not react to reload requests any more once one of them failed
+                "MC_TlsAuth_neg_deaf": "Fresh",
+                # a client that keeps the roots it read first although its roots file was replaced in place
+                "MC_TlsAuth_neg_staleroots": "ClientFollowsRoots"}
+OUT_RE = re.compile(r'^<<"(CASE|SCRIPT|RSCRIPT|CSCRIPT)", "(.*)">>$')
+HEADERS = {"script": "step", "rscript": "rstep", "cscript": "cstep"}
 BAD_RE = re.compile(r'^<<"BAD", (\d+), "([^"]*)", "(.*)">>$')
 CELL = ("serverCert", "nameMatches", "skipVerify", "clientCert", "serverClientCA")
 MAX_REPLAY_ITEMS = 24
@@ -59,16 +91,16 @@ def _unq(s):
 
 def enumerate_cases(cfg):
     """The model-checking run: the 72 cells, the reload scripts and the real-server scripts.
-    Returns (cells, scripts, rscripts, stats)."""
+    Returns (cells, scripts, rscripts, cscripts, stats)."""
     r = vlib.model_check("MC_TlsAuth", cfg, workers=1, timeout=1500, coverage=False)
     if not r["ok"]:
         log(r["out"][-3000:])
         raise ToolError(f"the reload machine violates {r['violated']} in {cfg} (triage spec/TlsAuth.tla)")
-    cells, scripts, rscripts = [], [], []
+    cells, scripts, rscripts, cscripts = [], [], [], []
     for line in r["out"].split("\n"):
         m = OUT_RE.match(line.strip())
         if m:
-            dict(CASE=cells, SCRIPT=scripts, RSCRIPT=rscripts)[m.group(1)].append(_unq(m.group(2)))
+            dict(CASE=cells, SCRIPT=scripts, RSCRIPT=rscripts, CSCRIPT=cscripts)[m.group(1)].append(_unq(m.group(2)))
     # vacuity / integrity of the enumeration
     keys = {tuple(c["case"][f] for f in CELL) for c in cells}
     if len(cells) != 72 or len(keys) != 72:
@@ -88,8 +120,13 @@ def enumerate_cases(cfg):
             elif o["op"] == op and seen:
                 return True
         return False
-    n_car = sum(1 for s in scripts if after_reload(s, "connect"))
-    n_uar = sum(1 for s in scripts if after_reload(s, "use"))
+    def rotates(s):
+        return any(o["op"] == "rotate" for o in s["ops"])
+    # (the guards written for the scripts without rotation keep looking at those only)
+    plain = [s for s in scripts if not rotates(s)]
+    rplain = [s for s in rscripts if not rotates(s) and not any(o["op"] == "botch" for o in s["ops"])]
+    n_car = sum(1 for s in plain if after_reload(s, "connect"))
+    n_uar = sum(1 for s in plain if after_reload(s, "use"))
     if n_car == 0 or n_uar == 0:
         raise ToolError("vacuous scripts: no handshake / no use after a reload")
     # the real-server scripts: what they must contain to say anything about client authentication across a reload
@@ -105,31 +142,176 @@ def enumerate_cases(cfg):
                 return True
         return False
     rstats = dict(
-        mtls_refused_after_reload=sum(1 for s in rscripts if s["mtls"] and probes_after_reload(s, ("none", "otherCA"), "serverRejects")),
-        mtls_admitted_after_reload=sum(1 for s in rscripts if s["mtls"] and probes_after_reload(s, ("trustedCA",), "ok")),
-        plain_admitted_after_reload=sum(1 for s in rscripts if not s["mtls"] and probes_after_reload(s, ("none", "otherCA", "trustedCA"), "ok")),
-        use_after_reload=sum(1 for s in rscripts if after_reload(s, "use")),
-        refused_before_reload=sum(1 for s in rscripts if s["mtls"] and any(
+        mtls_refused_after_reload=sum(1 for s in rplain if s["mtls"] and probes_after_reload(s, ("none", "otherCA"), "serverRejects")),
+        mtls_admitted_after_reload=sum(1 for s in rplain if s["mtls"] and probes_after_reload(s, ("trustedCA",), "ok")),
+        plain_admitted_after_reload=sum(1 for s in rplain if not s["mtls"] and probes_after_reload(s, ("none", "otherCA", "trustedCA"), "ok")),
+        use_after_reload=sum(1 for s in rplain if after_reload(s, "use")),
+        refused_before_reload=sum(1 for s in rplain if s["mtls"] and any(
             o["op"] == "connect" and o["conn"] == 0 for o in s["ops"][:[x["op"] for x in s["ops"]].index("reload")])),
     )
     if not all(rstats.values()):
         raise ToolError(f"vacuous real-server scripts: {rstats}")
-    for s in rscripts:
+    for s in rscripts + [x for x in scripts if rotates(x)]:
         for o, e in zip(s["ops"], s["exp"]):
             if o["op"] == "connect" and (o["conn"] > 0) != (e["outcome"] == ["ok"]):
-                raise ToolError(f"real-server script: slot and expectation disagree in {s}")
-    return cells, scripts, rscripts, dict(distinct=r["distinct"], generated=r["states"], wall=r["wall"], by=by,
-                                          connect_after_reload=n_car, use_after_reload=n_uar, real=rstats)
+                raise ToolError(f"script: slot and expectation disagree in {s}")
+    # rotation of the client CA in place: what the scripts must contain to say anything about it
+    rot = dict(duplex=rotation_stats(scripts), real=rotation_stats(rscripts))
+    for k, v in rot.items():
+        if not all(v.values()):
+            raise ToolError(f"vacuous rotation scripts ({k}): {v}")
+    # failed reloads
+    fstats = failed_reload_stats(rscripts)
+    if not all(fstats.values()):
+        raise ToolError(f"vacuous failed-reload scripts: {fstats}")
+    # client side: the roots file replaced in place
+    if not cscripts or len({json.dumps(s, sort_keys=True) for s in cscripts}) != len(cscripts):
+        raise ToolError("vacuous or duplicated client-side script enumeration")
+    cstats = client_stats(cscripts)
+    if not all(cstats.values()):
+        raise ToolError(f"vacuous client-side scripts: {cstats}")
+    return cells, scripts, rscripts, cscripts, dict(distinct=r["distinct"], generated=r["states"], wall=r["wall"], by=by,
+                                                    connect_after_reload=n_car, use_after_reload=n_uar, real=rstats,
+                                                    rotation=rot, client=cstats, failed_reload=fstats)
+
+
+def failed_reload_stats(rscripts):
+    st = collections.Counter(scripts_with_failed_reload=0, connect_between_failed_reload_and_reload=0, reload_after_failed_reload=0,
+                             connect_after_failed_reload_and_reload=0, use_after_failed_reload_of_earlier_connection=0)
+    for s in rscripts:
+        if not any(o["op"] == "botch" for o in s["ops"]):
+            continue
+        st["scripts_with_failed_reload"] += 1
+        seen, botched, reloaded_since, made = set(), 0, False, set()
+        for o in s["ops"]:
+            if o["op"] == "botch":
+                botched += 1
+                reloaded_since = False
+                made_before = set(made)
+            elif o["op"] == "reload" and botched:
+                reloaded_since = True
+                seen.add("reload_after_failed_reload")
+            elif o["op"] == "connect":
+                made.add(o["conn"])
+                if botched:
+                    seen.add("connect_after_failed_reload_and_reload" if reloaded_since else "connect_between_failed_reload_and_reload")
+            elif o["op"] == "use" and botched and o["conn"] in made_before:
+                seen.add("use_after_failed_reload_of_earlier_connection")
+        for k in seen:
+            st[k] += 1
+    return dict(st)
+
+
+def gen_of(name):
+    """generation of the CA a certificate named "trustedCA" / "gen<g>" was issued under (None: no such certificate)"""
+    if name == "trustedCA":
+        return 0
+    m = re.fullmatch(r"gen(\d+)", name or "")
+    return int(m.group(1)) if m else None
+
+
+def gen_name(g):
+    return "trustedCA" if g == 0 else f"gen{g}"
+
+
+def walk_rotation(s):
+    """(op, expectation, generation at the path, generation at the path at the last reload, connections made
+    when the last reload happened) for every operation of a script"""
+    at_path = loaded = 0
+    for o, e in zip(s["ops"], s["exp"]):
+        yield o, e, at_path, loaded
+        if o["op"] == "rotate":
+            at_path += 1
+        elif o["op"] == "reload":
+            loaded = at_path
+
+
+def rotation_stats(scripts):
+    """Number of scripts that contain each of the situations the rotation invariants speak about."""
+    st = collections.Counter(scripts_with_rotation=0, retired_client_refused_after_reload=0, new_client_admitted_after_reload=0,
+                             new_client_refused_before_reload=0, old_client_admitted_before_reload=0,
+                             no_certificate_refused_after_reload=0, use_after_rotation_and_reload_of_earlier_connection=0)
+    for s in scripts:
+        if not any(o["op"] == "rotate" for o in s["ops"]):
+            continue
+        st["scripts_with_rotation"] += 1
+        seen = set()
+        born = {}   # slot -> generation loaded when the connection was made
+        for o, e, at_path, loaded in walk_rotation(s):
+            if o["op"] == "connect":
+                g = gen_of(o.get("cc"))
+                ok = e["outcome"] == ["ok"]
+                if o["conn"]:
+                    born[o["conn"]] = loaded
+                if loaded > 0 and g is not None and g < loaded and not ok:
+                    seen.add("retired_client_refused_after_reload")
+                if loaded > 0 and g == loaded and ok:
+                    seen.add("new_client_admitted_after_reload")
+                if loaded > 0 and o.get("cc") == "none" and not ok:
+                    seen.add("no_certificate_refused_after_reload")
+                if at_path > loaded and g == at_path and not ok:
+                    seen.add("new_client_refused_before_reload")
+                if at_path > loaded and g == loaded and ok:
+                    seen.add("old_client_admitted_before_reload")
+            elif o["op"] == "use" and born.get(o["conn"], loaded) < loaded:
+                seen.add("use_after_rotation_and_reload_of_earlier_connection")
+        for k in seen:
+            st[k] += 1
+    return dict(st)
+
+
+def rotation_situations(kind, rec, served):
+    """Which of the situations the rotation invariants speak about a logged connect line is (whatever was observed,
+    except that the client-side ones are classified by the outcome too)."""
+    if rec.get("op") != "connect":
+        return []
+    g, at_path, loaded = gen_of(rec.get("cc")), rec.get("ca_gen", 0), rec.get("ca_loaded", 0)
+    out = []
+    if g is not None and loaded > 0 and g < loaded:
+        out.append(f"{kind}:retired_client_after_reload")
+    if g is not None and loaded > 0 and g == loaded:
+        out.append(f"{kind}:new_client_after_reload")
+    if g is not None and at_path > loaded and g == at_path:
+        out.append(f"{kind}:new_client_before_reload")
+    if g is not None and at_path > loaded and g == loaded:
+        out.append(f"{kind}:old_client_before_reload")
+    return out
+
+
+def client_stats(cscripts):
+    st = collections.Counter(retired_roots_server_refused=0, new_roots_server_accepted=0, server_accepted_before_rotation=0,
+                             other_ca_server_refused_after_rotation=0)
+    for s in cscripts:
+        roots, seen = 0, set()
+        for o, e in zip(s["ops"], s["exp"]):
+            if o["op"] == "rotate":
+                roots += 1
+                continue
+            g, ok = gen_of(o["srv"]), e["outcome"] == ["ok"]
+            if roots > 0 and g is not None and g < roots and not ok:
+                seen.add("retired_roots_server_refused")
+            if roots > 0 and g == roots and ok:
+                seen.add("new_roots_server_accepted")
+            if roots == 0 and g == 0 and ok:
+                seen.add("server_accepted_before_rotation")
+            if roots > 0 and o["srv"] == "otherCA" and not ok:
+                seen.add("other_ca_server_refused_after_rotation")
+        for k in seen:
+            st[k] += 1
+    return dict(st)
 
 
 def negative_controls():
     """Wrong reload implementations must be caught by the invariants (so the invariants are not vacuous)."""
     res = {}
-    for cfg, inv in NEG_CONTROLS.items():
-        r = vlib.model_check("MC_TlsAuth", cfg, workers=1, timeout=600, coverage=False)
-        if r["violated"] != inv:
-            raise ToolError(f"negative control {cfg}: expected {inv} violated, TLC reports {r['violated']}")
-        res[cfg] = dict(violated=inv, states=r["states"])
+    with concurrent.futures.ThreadPoolExecutor(max_workers=4) as ex:
+        runs = {cfg: ex.submit(vlib.model_check, "MC_TlsAuth", cfg, workers=1, timeout=600, coverage=False, xmx="1g")
+                for cfg in NEG_CONTROLS}
+        for cfg, inv in NEG_CONTROLS.items():
+            r = runs[cfg].result()
+            if r["violated"] != inv:
+                raise ToolError(f"negative control {cfg}: expected {inv} violated, TLC reports {r['violated']}")
+            res[cfg] = dict(violated=inv, states=r["states"])
     return res
 
 
@@ -143,6 +325,31 @@ def run_harness(bin_path, cases, out, seed, npki, algs, scratch, quiet=False):
     shutil.rmtree(scratch, ignore_errors=True)
     if not quiet:
         log(f"[run] tls_matrix {os.path.basename(cases)} x {npki} PKI set(s): {sum(1 for _ in open(out))} lines ({time.time() - t:.1f}s)")
+
+
+def run_split(bin_path, items, work, out, seed, nsets, procs, algs):
+    """Duplex and client-side scripts, dealt out round robin to `procs` harness processes running side by side (the
+    first with the seed given, the others with seeds of their own: other PKI parameters); logs concatenated in a
+    fixed order."""
+    t = time.time()
+    procs = max(1, min(procs, len(items)))
+    parts = []
+    for k in range(procs):
+        cpath = os.path.join(work, f"scripts_{k}.ndjson")
+        with open(cpath, "w") as f:
+            for i, it in enumerate(items):
+                if i % procs == k:
+                    f.write(json.dumps(it, separators=(",", ":")) + "\n")
+        parts.append((cpath, os.path.join(work, f"scripts_log_{k}.ndjson"), int(seed) + 15485863 * k, os.path.join(work, f"pki_s{k}")))
+    with concurrent.futures.ThreadPoolExecutor(max_workers=procs) as ex:
+        futs = [ex.submit(run_harness, bin_path, c, o, sd, nsets, algs, sc, True) for c, o, sd, sc in parts]
+        for f in futs:
+            f.result()  # a ToolError of any process is the check's
+    with open(out, "w") as f:
+        for _, o, _, _ in parts:
+            f.write(open(o).read())
+    log(f"[run] tls_matrix duplex and client-side scripts: {len(items)} scripts x {nsets} PKI set(s) in {procs} process(es): "
+        f"{sum(1 for _ in open(out))} lines ({time.time() - t:.1f}s)")
 
 
 def run_real(bin_path, rscripts, work, out, seed, procs, algs):
@@ -209,23 +416,44 @@ def describe(rec, exp):
                 f"client saw cn={rec['seen_cn']!r}, server saw client cert={rec['srv_saw_client_cert']}"
                 f"   property: {json.dumps(exp, sort_keys=True)}")
     if rec.get("ev") == "step":
-        if rec["op"] == "reload":
-            got = f"res={rec.get('res')} {rec.get('err', '')[:160]}"
+        ca = f" [client CA bundle: generation {rec.get('ca_gen')} at the path, {rec.get('ca_loaded')} at the last reload]" if rec.get("ca_gen") else ""
+        if rec["op"] in ("reload", "rotate"):
+            got = f"res={rec.get('res')} to={rec.get('to')} {rec.get('err', '')[:160]}"
+        elif rec["op"] == "connect":
+            got = (f"presenting clientCert={rec.get('cc')}{ca}: client hs={rec.get('client_hs')} rt={rec.get('client_rt')} server hs={rec.get('server_hs')} rt={rec.get('server_rt')} "
+                   f"client saw cn={rec.get('seen_cn')!r} serial={rec.get('seen_serial')} mtls={rec.get('mtls')} server saw client cert={rec.get('srv_saw_client_cert')} "
+                   f"{rec.get('srv_saw_client_cn')!r} ({str(rec.get('client_err'))[:100]} / {str(rec.get('server_err'))[:100]})")
         else:
             got = (f"client hs={rec.get('client_hs')} rt={rec.get('client_rt')} server hs={rec.get('server_hs')} rt={rec.get('server_rt')} "
                    f"client saw cn={rec.get('seen_cn')!r} serial={rec.get('seen_serial')} mtls={rec.get('mtls')} server saw client cert={rec.get('srv_saw_client_cert')} ({str(rec.get('client_err'))[:100]} / {str(rec.get('server_err'))[:100]})")
         return f"script {rec['id']} step {rec['i']} {rec['op']}({rec['conn']}) -> {got}   property: {json.dumps(exp, sort_keys=True)}"
     if rec.get("ev") == "rstep":
         seen = f"client saw cn={rec.get('seen_cn')!r} serial={rec.get('seen_serial')}"
+        ca = f" [client CA bundle: generation {rec.get('ca_gen')} at the path, {rec.get('ca_loaded')} at the last reload]" if rec.get("ca_gen") else ""
         if rec["op"] == "reload":
-            what = f"reload (SIGUSR1) to identity {rec.get('to')}"
-            got = f"res={rec.get('res')} after {rec.get('polls')} probe handshakes, last probe: hs={rec.get('client_hs')} rt={rec.get('client_rt')} {seen}"
+            what = f"reload (SIGUSR1) to identity {rec.get('to')}{ca}"
+            got = (f"res={rec.get('res')} ({rec.get('botched', 0)} failed reload(s) before) after {rec.get('polls')} probe handshakes presenting clientCert={rec.get('cc')}, last probe: "
+                   f"hs={rec.get('client_hs')} rt={rec.get('client_rt')} http={rec.get('http_status')} {seen} ({str(rec.get('client_err'))[:100]})")
+        elif rec["op"] == "rotate":
+            what = f"rotate: client CA bundle {rec.get('path')} overwritten in place with generation {rec.get('to')}"
+            got = f"res={rec.get('res')}"
+        elif rec["op"] == "botch":
+            what = f"failed reload no. {rec.get('n')}: key file made unusable, SIGUSR1"
+            got = f"res={rec.get('res')} server_main running={rec.get('server_running')}"
         else:
-            what = (f"connect presenting clientCert={rec.get('cc')} (slot {rec['conn']})" if rec["op"] == "connect" else f"use({rec['conn']})")
+            what = (f"connect presenting clientCert={rec.get('cc')} (slot {rec['conn']}){ca}" if rec["op"] == "connect" else f"use({rec['conn']})")
             got = (f"client hs={rec.get('client_hs')} rt={rec.get('client_rt')} http={rec.get('http_status')} {seen} "
                    f"({str(rec.get('client_err'))[:100]})")
         return (f"real-server script {rec['id']} (mtls={rec.get('mtls')}, {rec.get('reloads')} reload(s) so far) step {rec['i']} {what} -> {got}"
                 f"   property: {json.dumps(exp, sort_keys=True)}")
+    if rec.get("ev") == "cstep":
+        if rec["op"] == "rotate":
+            got = f"roots file {rec.get('path')} overwritten in place with generation {rec.get('to')}: res={rec.get('res')}"
+        else:
+            got = (f"connect (roots file {rec.get('path')} holds generation {rec.get('roots')}) to a server with a certificate issued by {rec.get('srv')}: "
+                   f"client hs={rec.get('client_hs')} rt={rec.get('client_rt')} got={rec.get('cli_data')!r} server hs={rec.get('server_hs')} "
+                   f"client saw cn={rec.get('seen_cn')!r} issuer={rec.get('seen_issuer')!r} ({str(rec.get('client_err'))[:100]} / {str(rec.get('server_err'))[:100]})")
+        return f"client-side script {rec['id']} step {rec['i']} {got}   property: {json.dumps(exp, sort_keys=True)}"
     return json.dumps(rec, sort_keys=True)[:300]
 
 
@@ -244,21 +472,23 @@ def item_lines(lines, ln):
     return lines[i:j]
 
 
-def self_test(work, path, badset, strict=True):
-    """The binding of the real-server lines is real: hand-made corruptions of scripts ACCEPTED in this very run must be
+def self_test(work, logs, strict=True):
+    """The binding of the script lines is real: hand-made corruptions of scripts ACCEPTED in this very run must be
     rejected by TLC, each at the corrupted line and with the signature of the clause it breaks.
+    logs: [(path, set of rejected line numbers)] (the real-server log, the log of the duplex and client-side scripts).
     Returns {corruption: signature}."""
-    lines = open(path).readlines()
-    scripts, cur = [], None      # accepted scripts as lists of records
-    for i, text in enumerate(lines, 1):
-        rec = json.loads(text)
-        if rec["ev"] == "rscript":
-            cur = [rec]
-            scripts.append(cur)
-        elif cur is not None:
-            cur.append(rec)
-        if i in badset and cur is not None:
-            cur.append(None)
+    scripts = []      # accepted scripts as lists of records (header first)
+    for path, badset in logs:
+        cur = None
+        for i, text in enumerate(open(path), 1):
+            rec = json.loads(text)
+            if rec["ev"] in HEADERS:
+                cur = [rec]
+                scripts.append(cur)
+            elif cur is not None:
+                cur.append(rec)
+            if i in badset and cur is not None:
+                cur.append(None)
     scripts = [sc for sc in scripts if None not in sc]
 
     def reached(r):
@@ -266,31 +496,107 @@ def self_test(work, path, badset, strict=True):
 
     def refused(r):
         return dict(r, http_status=0, client_rt="alert", cli_data="", client_err="AlertReceived(CertificateRequired)")
+
+    def real(h, r, op="connect"):
+        return h["ev"] == "rscript" and r["op"] == op
+
+    def norot(r):
+        return r.get("ca_gen", 0) == 0
+
+    def gen(r):
+        return gen_of(r.get("cc"))
+
+    # duplex / client-side lines: both ends are logged
+    def both_ok(r, **kw):
+        return dict(r, client_hs="ok", server_hs="ok", client_rt="ok", server_rt="ok", cli_data="ping", srv_data="ping",
+                    client_err="", server_err="", **kw)
+
+    def client_refuses(r):
+        return dict(r, client_hs="bad_cert", client_rt="skipped", server_hs="alert", server_rt="skipped", cli_data="", srv_data="",
+                    client_err="InvalidCertificate(UnknownIssuer)", seen_cn="", seen_serial=-1, seen_issuer="")
+    # name -> (signature TLC must give, corruption(header, record) -> corrupted record | falsy)
     wanted = {
+        # ---- scripts without rotation, real server
         # after a reload the mutual-TLS server serves a client without a certificate under the configured CA
-        "reload_drops_client_auth": lambda h, r: h["mtls"] and r["op"] == "connect" and r["reloads"] > 0 and r["cc"] != "trustedCA" and reached(r),
-        "server_accepts_unauthenticated_client": lambda h, r: h["mtls"] and r["op"] == "connect" and r["reloads"] == 0 and r["cc"] != "trustedCA" and reached(r),
-        "handshake_fails_after_reload": lambda h, r: r["op"] == "connect" and r["reloads"] > 0 and r["http_status"] and refused(r),
-        "server_demands_client_cert_without_ca": lambda h, r: not h["mtls"] and r["op"] == "connect" and r["reloads"] == 0 and r["cc"] == "none" and refused(r),
-        "new_handshake_sees_stale_identity": lambda h, r: r["op"] == "connect" and r["reloads"] > 0 and r["conn"] == 0 and r["client_hs"] == "ok"
-                                                           and dict(r, seen_cn="srv-v0", seen_serial=100),
-        "reload_not_effective": lambda h, r: r["op"] == "reload" and dict(r, res="stale", seen_cn=f"srv-v{r['to'] - 1}", seen_serial=100 + r["to"] - 1),
-        "reload_disturbs_established_connection": lambda h, r: r["op"] == "use" and r["reloads"] > 0 and dict(r, http_status=0, client_rt="eof", cli_data=""),
-        "established_connection_changes_identity": lambda h, r: r["op"] == "use" and r["reloads"] > 0 and r["seen_serial"] == 100
-                                                                 and dict(r, seen_cn="srv-v1", seen_serial=101),
+        "reload_drops_client_auth": ("reload_drops_client_auth", lambda h, r: real(h, r) and h["mtls"] and norot(r) and r["reloads"] > 0
+                                     and r["cc"] in ("none", "otherCA") and reached(r)),
+        "server_accepts_unauthenticated_client": ("server_accepts_unauthenticated_client", lambda h, r: real(h, r) and h["mtls"] and norot(r)
+                                                  and r["reloads"] == 0 and r["cc"] in ("none", "otherCA") and reached(r)),
+        "handshake_fails_after_reload": ("handshake_fails_after_reload", lambda h, r: real(h, r) and norot(r) and r["reloads"] > 0
+                                         and r["http_status"] and refused(r)),
+        "server_demands_client_cert_without_ca": ("server_demands_client_cert_without_ca", lambda h, r: real(h, r) and not h["mtls"]
+                                                  and r["reloads"] == 0 and r["cc"] == "none" and refused(r)),
+        "new_handshake_sees_stale_identity": ("new_handshake_sees_stale_identity", lambda h, r: real(h, r) and r["reloads"] > 0 and r["conn"] == 0
+                                              and r["client_hs"] == "ok" and dict(r, seen_cn="srv-v0", seen_serial=100)),
+        "reload_not_effective": ("reload_not_effective", lambda h, r: real(h, r, "reload") and not r.get("botched")
+                                 and dict(r, res="stale", seen_cn=f"srv-v{r['to'] - 1}", seen_serial=100 + r["to"] - 1)),
+        "reload_disturbs_established_connection": ("reload_disturbs_established_connection", lambda h, r: real(h, r, "use") and r["reloads"] > 0
+                                                   and dict(r, http_status=0, client_rt="eof", cli_data="")),
+        "established_connection_changes_identity": ("established_connection_changes_identity", lambda h, r: real(h, r, "use") and r["reloads"] > 0
+                                                    and r["seen_serial"] == 100 and dict(r, seen_cn="srv-v1", seen_serial=101)),
+        # ---- rotation of the client CA in place, real server
+        # after rotation + reload a client of the RETIRED generation is served
+        "real:retired_client_admitted": ("reload_keeps_retired_client_ca", lambda h, r: real(h, r) and r["ca_loaded"] > 0 and gen(r) is not None
+                                         and gen(r) < r["ca_loaded"] and not r["http_status"] and reached(r)),
+        # after rotation + reload a client of the generation configured at the reload is refused
+        "real:new_client_refused": ("reload_rejects_new_client_ca", lambda h, r: real(h, r) and r["ca_loaded"] > 0 and gen(r) == r["ca_loaded"]
+                                    and r["http_status"] and refused(r)),
+        # the probe handshake of the reload itself (it presents the certificate of the generation at the path) is refused
+        "real:reload_probe_refused": ("reload_rejects_new_client_ca", lambda h, r: real(h, r, "reload") and r["ca_gen"] > 0 and r["http_status"]
+                                      and refused(r)),
+        # between rotation and reload the new generation is in force already (a client of it is served; one of the old
+        # generation is refused)
+        "real:new_client_admitted_before_reload": ("ca_rotation_effective_before_reload", lambda h, r: real(h, r) and r["ca_gen"] > r["ca_loaded"]
+                                                   and gen(r) == r["ca_gen"] and not r["http_status"] and reached(r)),
+        "real:old_client_refused_before_reload": ("ca_rotation_effective_before_reload", lambda h, r: real(h, r) and r["ca_gen"] > r["ca_loaded"] == 0
+                                                  and gen(r) == 0 and r["http_status"] and refused(r)),
+        # an established connection dies with the rotation + reload
+        "real:rotation_disturbs_established_connection": ("reload_disturbs_established_connection", lambda h, r: real(h, r, "use") and r["ca_loaded"] > 0
+                                                          and dict(r, http_status=0, client_rt="eof", cli_data="")),
+        # ---- failed reloads: the reload after a failed one has no effect; a connection made after the failed reload fails
+        "real:reload_dead_after_failed_reload": ("reload_dead_after_failed_reload", lambda h, r: real(h, r, "reload") and r.get("botched")
+                                                 and dict(r, res="stale", seen_cn=f"srv-v{r['to'] - 1}", seen_serial=100 + r["to"] - 1)),
+        "real:failed_reload_disturbs_service": ("server_demands_client_cert_without_ca", lambda h, r: real(h, r) and not h["mtls"] and r.get("botched")
+                                                and r["reloads"] == 0 and r["http_status"] and refused(r)),
+        # ---- the same on the duplex (both ends logged)
+        "duplex:retired_client_admitted": ("reload_keeps_retired_client_ca", lambda h, r: h["ev"] == "script" and r["op"] == "connect"
+                                           and r["ca_loaded"] > 0 and gen(r) is not None and gen(r) < r["ca_loaded"] and r["cli_data"] == ""
+                                           and both_ok(r, srv_saw_client_cert=True, srv_saw_client_cn="cli-" + r["cc"])),
+        "duplex:new_client_refused": ("reload_rejects_new_client_ca", lambda h, r: h["ev"] == "script" and r["op"] == "connect"
+                                      and r["ca_loaded"] > 0 and gen(r) == r["ca_loaded"] and r["cli_data"] == "ping"
+                                      and dict(r, server_hs="bad_cert", server_rt="skipped", client_rt="alert", cli_data="", srv_data="",
+                                               srv_saw_client_cert=False, srv_saw_client_cn="")),
+        "duplex:new_client_admitted_before_reload": ("ca_rotation_effective_before_reload", lambda h, r: h["ev"] == "script" and r["op"] == "connect"
+                                                     and r["ca_gen"] > r["ca_loaded"] and gen(r) == r["ca_gen"] and r["cli_data"] == ""
+                                                     and both_ok(r, srv_saw_client_cert=True, srv_saw_client_cn="cli-" + r["cc"])),
+        # the server authenticated ANOTHER certificate than the one presented
+        "duplex:another_client_cert": ("server_saw_another_client_cert", lambda h, r: h["ev"] == "script" and r["op"] == "connect" and h["mtls"]
+                                       and r["cli_data"] == "ping" and dict(r, srv_saw_client_cn="cli-otherCA")),
+        # ---- client side: the roots file replaced in place
+        # a server under the RETIRED roots is still accepted
+        "client:stale_roots": ("client_uses_stale_roots", lambda h, r: h["ev"] == "cscript" and r["op"] == "connect" and r["roots"] > 0
+                               and gen_of(r["srv"]) is not None and gen_of(r["srv"]) < r["roots"] and r["cli_data"] == ""
+                               and both_ok(r, seen_cn=f"srv-{r['srv']}-match", seen_serial=11,
+                                           seen_issuer="trusted-ca" if r["srv"] == "trustedCA" else "trusted-ca-" + r["srv"])),
+        # a server under the NEW roots is refused
+        "client:new_roots_ignored": ("client_ignores_replaced_roots", lambda h, r: h["ev"] == "cscript" and r["op"] == "connect" and r["roots"] > 0
+                                     and gen_of(r["srv"]) == r["roots"] and r["cli_data"] == "ping" and client_refuses(r)),
+        # the harness's bookkeeping of the generation at the path is bound too
+        "client:wrong_generation_logged": ("other:malformed_line", lambda h, r: h["ev"] == "cscript" and r["op"] == "connect" and r["roots"] > 0
+                                           and dict(r, roots=r["roots"] - 1)),
     }
     out, expect = [], {}
-    for name, f in wanted.items():
+    for name, (sig, f) in wanted.items():
         for sc in scripts:
             hit = next(((k, m) for k, r in enumerate(sc[1:], 1) for m in [f(sc[0], r)] if m), None)
             if hit:
-                expect[len(out) + hit[0] + 1] = name
+                expect[len(out) + hit[0] + 1] = (name, sig)
                 out += [hit[1] if k == hit[0] else r for k, r in enumerate(sc)]
                 break
-    missing = set(wanted) - set(expect.values())
+    missing = set(wanted) - {n for n, _ in expect.values()}
     # (when lines of this run were rejected, the material for a corruption may be missing: that is the finding's business)
     if missing and strict:
-        raise ToolError(f"self-test: corruptions {sorted(missing)} could not be derived from the accepted real-server scripts of this run")
+        raise ToolError(f"self-test: corruptions {sorted(missing)} could not be derived from the accepted scripts of this run")
     if not expect:
         return {}
     spath = os.path.join(work, "selftest.ndjson")
@@ -299,11 +605,14 @@ def self_test(work, path, badset, strict=True):
             fh.write(json.dumps(r, separators=(",", ":")) + "\n")
     _, bad, _ = validate(spath)
     got = {ln: sig for ln, sig, _ in bad}
-    for ln, name in expect.items():
-        if got.get(ln) != name:
+    for ln, (name, sig) in expect.items():
+        if got.get(ln) != sig:
             raise ToolError(f"self-test: the corruption `{name}` of an accepted line (line {ln} of {spath}) was "
-                            f"{'accepted' if ln not in got else 'rejected as ' + got[ln]} by TLC")
-    return {name: got[ln] for ln, name in expect.items()}
+                            f"{'accepted' if ln not in got else 'rejected as ' + got[ln]} by TLC instead of being rejected as {sig}")
+    extra = sorted(set(got) - set(expect))
+    if extra and strict:
+        raise ToolError(f"self-test: lines {extra[:5]} of {spath} were rejected although only the corrupted lines differ from accepted ones")
+    return {name: got[ln] for ln, (name, sig) in expect.items()}
 
 
 def check(prop, tier, seed, replay):
@@ -316,18 +625,23 @@ def check(prop, tier, seed, replay):
     try:
         logs = []  # (name, path)
         mc = neg = None
-        n_cases = n_scripts = n_rscripts = 0
+        n_cases = n_scripts = n_rscripts = n_cscripts = 0
         st = real_run = None
+        badsets = {}
         if replay:
             out = os.path.join(work, "replay_log.ndjson")
             run_harness(bin_path, os.path.abspath(replay), out, seed, 1, T["algs"], os.path.join(work, "pki_r"))
             logs.append(("replay", out))
         else:
             # 1. model checking: invariants of the reload machine, enumeration of cells and scripts
-            cells, scripts, rscripts, mc = enumerate_cases(T["cfg"])
+            cells, scripts, rscripts, cscripts, mc = enumerate_cases(T["cfg"])
             log(f"[mc] {T['cfg']}: {mc['distinct']} distinct states, {mc['generated']} generated, {mc['wall']:.1f}s: "
                 f"72 cells ({dict(mc['by'])}), {len(scripts)} complete scripts ({T['bounds']}), {len(rscripts)} complete "
-                f"real-server scripts ({T['real_bounds']}); Undisturbed, Fresh, ConfigKept, Authenticated hold")
+                f"real-server scripts ({T['real_bounds']}), of which {mc['rotation']['duplex']['scripts_with_rotation']} / "
+                f"{mc['rotation']['real']['scripts_with_rotation']} with {T['rot_bounds']}, {mc['failed_reload']['scripts_with_failed_reload']} "
+                f"with {T['fail_bounds']}; {len(cscripts)} client-side scripts "
+                f"({T['cli_bounds']}); Undisturbed, Fresh, ConfigKept, CAFollows, JudgedAsConfigured, Authenticated, "
+                f"ClientFollowsRoots hold")
             neg = negative_controls()
             log("[mc] negative controls (wrong reload implementations) caught: " +
                 ", ".join(f"{k.split('_neg_')[1]}->{v['violated']}" for k, v in neg.items()))
@@ -354,14 +668,15 @@ def check(prop, tier, seed, replay):
             if got != n_cases * T["npki"]:
                 raise ToolError(f"tls_matrix logged {got} lines for {n_cases * T['npki']} executions")
             logs.append(("matrix", out))
-            spath = os.path.join(work, "scripts.ndjson")
-            with open(spath, "w") as f:
-                for i, s in enumerate(scripts, 1):
-                    f.write(json.dumps(dict(ev="script", id=i, mtls=s["mtls"], ops=s["ops"]), separators=(",", ":")) + "\n")
+            # the duplex scripts and, after them, the client-side scripts: dealt out round robin to script_procs harness
+            # processes running side by side (each executes its share with script_sets PKI sets of its own)
+            items = [dict(ev="script", id=i, mtls=s["mtls"], ops=s["ops"]) for i, s in enumerate(scripts, 1)]
+            items += [dict(ev="cscript", id=i, ops=s["ops"]) for i, s in enumerate(cscripts, 1)]
             n_scripts = len(scripts)
+            n_cscripts = len(cscripts)
             out = os.path.join(work, "scripts_log.ndjson")
-            run_harness(bin_path, spath, out, int(seed) + 7919, T["script_sets"], T["algs"], os.path.join(work, "pki_s"))
-            want = sum(1 + len(s["ops"]) for s in scripts) * T["script_sets"]
+            run_split(bin_path, items, work, out, int(seed) + 7919, T["script_sets"], T["script_procs"], T["algs"])
+            want = sum(1 + len(s["ops"]) for s in scripts + cscripts) * T["script_sets"]
             got = sum(1 for _ in open(out))
             if got != want:
                 raise ToolError(f"tls_matrix logged {got} lines for {want} script lines")
@@ -373,6 +688,7 @@ def check(prop, tier, seed, replay):
         total = accepted = 0
         rejected = collections.defaultdict(list)  # sig -> [(rec, expected, item lines)]
         nontrivial = set()
+        executed = collections.Counter()
         outcome = collections.Counter()
         samples = []
         pki_sets = set()
@@ -386,6 +702,7 @@ def check(prop, tier, seed, replay):
             total += n
             accepted += n - len(bad)
             badset = {b[0] for b in bad}
+            badsets[name] = (path, badset)
             for ln, sig, exp in bad:
                 if sig == "other:malformed_line":
                     raise ToolError(f"malformed log line {ln} in {name}: {lines[ln - 1][:300]}")
@@ -408,7 +725,11 @@ def check(prop, tier, seed, replay):
                 elif rec["ev"] == "rstep":
                     cls = (rec.get("res") if rec["op"] == "reload" else
                            f"{rec.get('cc', '')}:" + ("reached" if rec.get("http_status") else "refused:" + str(rec.get("client_rt"))))
+                    cls = "ok" if rec["op"] == "rotate" else "signalled" if rec["op"] == "botch" else cls
+                    if rec.get("botched"):
+                        executed[f"real:{rec['op']}_after_failed_reload"] += 1
                     outcome[("real", "mtls" if rec.get("mtls") else "plain", "after-reload" if rec.get("reloads") else "before-reload", rec["op"], cls)] += 1
+                    executed.update(rotation_situations("real", rec, bool(rec.get("http_status"))))
                     if script_ok is not None:
                         if i in badset:
                             script_ok[1] = False
@@ -424,6 +745,7 @@ def check(prop, tier, seed, replay):
                     script_ok = [rec, True, False]
                 elif rec["ev"] == "step":
                     outcome[("script", rec["op"], rec.get("client_rt", rec.get("res")))] += 1
+                    executed.update(rotation_situations("duplex", rec, rec.get("cli_data") == "ping" and rec.get("srv_data") == "ping"))
                     if script_ok is not None:
                         if i in badset:
                             script_ok[1] = False
@@ -434,10 +756,39 @@ def check(prop, tier, seed, replay):
                             nontrivial.add(("script", json.dumps(h["ops"]), h["mtls"], h["alg"], h["namekind"], h["pki"]))
                             if rec["op"] == "use" and not any(s.get("ev") == "step" for s in samples):
                                 samples.append(rec)
+                elif rec["ev"] == "cscript":
+                    script_ok = [rec, True, False]
+                elif rec["ev"] == "cstep":
+                    ok = rec.get("cli_data") == "ping" and rec.get("srv_data") == "ping"
+                    outcome[("client", rec["op"], f"roots-gen{rec.get('roots')}",
+                             "ok" if rec["op"] == "rotate" else f"{rec.get('srv')}:" + ("accepted" if ok else "refused:" + str(rec.get("client_hs"))))] += 1
+                    if rec["op"] == "connect" and rec.get("roots", 0) > 0:
+                        g = gen_of(rec.get("srv"))
+                        if g is not None and g < rec["roots"] and not ok:
+                            executed["client:retired_roots_server_refused"] += 1
+                        if g == rec["roots"] and ok:
+                            executed["client:new_roots_server_accepted"] += 1
+                    if script_ok is not None:
+                        if i in badset:
+                            script_ok[1] = False
+                        if rec["op"] == "rotate":
+                            script_ok[2] = True
+                        elif script_ok[1] and script_ok[2]:
+                            h = script_ok[0]
+                            nontrivial.add(("cscript", json.dumps(h["ops"]), h["alg"], h["namekind"], h["pki"]))
+                            if rec.get("roots", 0) > 0 and not ok and not any(s.get("ev") == "cstep" for s in samples):
+                                samples.append(rec)
             log(f"[trace] {name}: {n} lines, {n - len(bad)} accepted by TLC, {len(bad)} rejected ({tv:.1f}s)")
-            if name == "real":
-                st = self_test(work, path, badset, strict=not bad)
-                log("[selftest] hand-corrupted copies of accepted real-server lines rejected by TLC: " + ", ".join(sorted(st)))
+        if not replay:
+            # what the rotation scripts are there for was executed on the real code (whatever the code did)
+            need = [f"{k}:{x}" for k in ("duplex", "real") for x in ("retired_client_after_reload", "new_client_after_reload",
+                                                                    "new_client_before_reload", "old_client_before_reload")]
+            need += ["client:retired_roots_server_refused", "client:new_roots_server_accepted",
+                     "real:reload_after_failed_reload", "real:connect_after_failed_reload", "real:use_after_failed_reload"]
+            if not rejected and any(executed[k] == 0 for k in need):
+                raise ToolError(f"vacuous run: rotation situations not executed: {[k for k in need if executed[k] == 0]}")
+            st = self_test(work, [badsets["real"], badsets["scripts"]], strict=not rejected)
+            log(f"[selftest] {len(st)} hand-corrupted copies of accepted script lines rejected by TLC: " + ", ".join(sorted(set(st.values()))))
         # 4. verdict
         known = {k.get("sig"): k for k in vlib.load_known()
                  if k.get("property") == prop and k.get("status") == "open" and k.get("sig")}
@@ -477,7 +828,9 @@ def check(prop, tier, seed, replay):
                      "handshake (and round trip) whose outcome class, delivered data, presented certificate and "
                      "client-certificate request were compared with the table; (b) accepted scripts, distinct by operations, "
                      "mTLS flag and PKI set, in which a handshake or a use of an established connection follows a reload; "
-                     "(c) accepted real-server scripts (server_main + SIGUSR1 over loopback TCP), counted the same way",
+                     "(c) accepted real-server scripts (server_main + SIGUSR1 over loopback TCP), counted the same way; "
+                     "(d) accepted client-side scripts, distinct by operations and PKI set, in which a connection follows a "
+                     "replacement of the roots file",
                 samples=samples or [dict(note="no accepted line in this run")],
                 model_checking_runs=[dict(config=T["cfg"], distinct_states=mc["distinct"], states_generated=mc["generated"],
                                           wall_s=round(mc["wall"], 1))],
@@ -485,9 +838,13 @@ def check(prop, tier, seed, replay):
                 self_test=st,
                 matrix_cells=72, cells_by_expectation=dict(mc["by"]),
                 matrix_executions=n_cases * T["npki"], pki_sets=sorted(list(x) for x in pki_sets),
-                scripts=n_scripts, script_bounds=T["bounds"], script_pki_sets=T["script_sets"],
+                scripts=n_scripts, script_bounds=T["bounds"], script_pki_sets=T["script_sets"], script_processes=T["script_procs"],
                 real_server_scripts=n_rscripts, real_server_script_bounds=T["real_bounds"],
                 real_server_processes=T["real_procs"], real_server_scripts_by_content=mc["real"],
+                rotation_script_bounds=T["rot_bounds"], rotation_scripts_by_content=mc["rotation"],
+                failed_reload_script_bounds=T["fail_bounds"], failed_reload_scripts_by_content=mc["failed_reload"],
+                client_side_scripts=n_cscripts, client_side_script_bounds=T["cli_bounds"], client_side_scripts_by_content=mc["client"],
+                rotation_situations_executed=dict(sorted(executed.items())),
                 scripts_with_connect_after_reload=mc["connect_after_reload"],
                 scripts_with_use_after_reload=mc["use_after_reload"],
                 observed={"/".join(str(x) for x in k): n for k, n in sorted(outcome.items(), key=str)},
@@ -510,7 +867,16 @@ def check(prop, tier, seed, replay):
                             "trip, a reload = rewrite the files + SIGUSR1 to the process (check_start_tls -> "
                             "register_signal_handler -> reload_tls_identity with the arguments the server kept); the harness "
                             "waits for its own SIGUSR1 listener and then for a probe handshake served with the new "
-                            "certificate, and TLC judges every handshake by the decision table for the CONFIGURED client CA",
+                            "certificate, and TLC judges every handshake by the decision table for the CONFIGURED client CA. "
+                            "Rotation of CA material in place: the machine carries the generation of the client CA bundle at the "
+                            "configured path (wantGen), in force (liveGen) and as of the last reload (dueGen); Rotate = the bundle "
+                            "is overwritten in place (same path), the generation in force follows at the next reload and not before "
+                            "(CAFollows, JudgedAsConfigured, Authenticated; negative controls 'staleca', 'eagerca'). The rotation "
+                            "scripts (duplex and real server, --tls-ca = client_ca_live.pem of the PKI set for every script of the "
+                            "process) connect clients of every generation before the rotation, between rotation and reload and "
+                            "after the reload. Client side: one process, one roots file (roots_live.pem) replaced in place between "
+                            "calls of tls_connect; every connection must be validated against what the file holds then "
+                            "(ClientFollowsRoots; negative control 'staleroots')",
             )
             vlib.write_evidence(prop, tier, seed, coverage, wall, sum(v[2] for v in violations), assumptions=[
                 "thin use of TLA+: a decision table and a small state machine serve as the reference decision procedure; "
@@ -537,8 +903,16 @@ def check(prop, tier, seed, replay):
                 "when both peers would reject, either may be observed to (TLS 1.2 and 1.3: the client checks first)",
                 "key generation uses the system RNG and is not reproducible; the seed selects key algorithm, name kind "
                 "(DNS / IP literal) and names of each PKI set; certificates are valid 1975-4096 (no clock dependence)",
-                "reload: same file paths with new content, as the SIGUSR1 handler does; a failing reload (unreadable or "
-                "mismatching files) is not modelled",
+                "reload: same file paths with new content, as the SIGUSR1 handler does; a failing reload is modelled in one "
+                "form only (real-server scripts, op 'botch': the key file holds no key when SIGUSR1 arrives; nothing may "
+                "change and the next reload must take effect); a failing reload_tls_identity call on the duplex, unreadable "
+                "certificate / CA files and mismatching certificate and key are not exercised",
+                "rotation in place = open + truncate + write of the same path (same inode); replacement by rename (a new "
+                "inode under the old name) is not exercised; all scripts of a harness process share the path of the client "
+                "CA bundle / roots file and every script starts by writing generation 0 to it; the new generations are fresh "
+                "CAs with other keys and subjects (no cross-signing, no bundles holding two generations)",
+                "client side: the roots replaced in place are exercised with tls_connect over a duplex in one process; the "
+                "reconnect loop of the client (client/mod.rs) calling it is not",
             ])
         if violations:
             for path, sig, n in violations:
